@@ -686,7 +686,7 @@ def gen_cases(tier, tr, SR=None):
     cases += [gen_case(rnd, S1, True) for _ in range(nm)]
     cases += [gen_case(rnd, S2, rnd.random() < 0.4) for _ in range(nx)]
     if SR is not None:
-        nr = 3000 if tier == 'quick' else 30000
+        nr = 1500 if tier == "quick" else 20000
         rc, stats, _ = gen_real_cases(rnd, SR, nr)
         cases += rc
         REAL_STATS.clear()
@@ -1049,15 +1049,21 @@ def classify(case, tag, known_ids):
 
 
 # ---------------------------------------------------------------- shrinking
-def shrink(case, pred):
+def shrink(case, pred, batch_pred=None):
+    """greedy op deletion.  `batch_pred(list of cases) -> list of bool` evaluates one round of
+    candidates in a single run of the implementation (start-up with the real spec costs seconds)"""
     ops = list(case['ops'])
     changed = True
-    while changed:
+    while changed and len(ops) > 1:
         changed = False
-        for i in range(len(ops)):
-            cand = dict(case, ops=ops[:i] + ops[i + 1:])
-            if cand['ops'] and pred(cand):
-                ops = cand['ops']
+        cands = [dict(case, ops=ops[:i] + ops[i + 1:]) for i in range(len(ops))]
+        if batch_pred is not None:
+            res = batch_pred(cands)
+        else:
+            res = [pred(c) for c in cands]
+        for c, ok in zip(cands, res):
+            if ok:
+                ops = c['ops']
                 changed = True
                 break
     return dict(case, ops=ops)
@@ -1196,9 +1202,10 @@ def run(tier):
                                                                    kv[0][0].startswith('json-'), -len(kv[1])))[:5]:
         i = idxs[0]
 
-        def still(c, tag=tag):
-            return any(strip_tag(t) == tag for t in split(one_impl(c))[1])
-        small = shrink(cases[i], still)
+        def still_batch(cs, tag=tag):
+            outs = run_impl([enc(c) for c in cs])
+            return [any(strip_tag(t) == tag for t in split(o)[1]) for o in outs]
+        small = shrink(cases[i], None, still_batch)
         what = f'monitor {tag!r} failed on the real configuration code ({len(idxs)} cases)'
         if would:
             what += f' [matches proposed known finding {would}, which is not in known_findings.json]'
@@ -1219,9 +1226,10 @@ def run(tier):
         elif mism:
             i = mism[0]
 
-            def dis(c):
-                return not agree(split(one_impl(c))[0], lib.run_model(exe, [enc(c)])[0])[0]
-            small = shrink(cases[i], dis)
+            def dis_batch(cs):
+                ls = [enc(c) for c in cs]
+                return [not agree(split(a)[0], b)[0] for a, b in zip(run_impl(ls), lib.run_model(exe, ls))]
+            small = shrink(cases[i], None, dis_batch)
             rep.violation(f'correspondence broken: model and implementation disagree on {len(mism)} of '
                           f'{len(cases)} cases; no monitor failed',
                           {'broken': 'correspondence C19 Model vs edb.server.config', 'case': enc(small),
